@@ -2,7 +2,8 @@
 import corelib
 
 META = {
-    "technique": "TLC model checking of NsqdAbs/NsqdAbsMC; traces of a real in-process nsqd (verif hooks + client-side "
+    "technique": "TLC model checking of NsqdAbs/NsqdAbsMC and NsqdCore; every TLC-enumerated interleaving of operation pairs "
+                 "forced on the real daemon through yield points (gated replay) and compared with the model's prediction; traces of a real in-process nsqd (verif hooks + client-side "
                  "observations) from the seeded 'core' and 'contend' drivers validated against NsqdAbs by TLC; black-box "
                  "ledger on client-visible frames and /stats",
     "design_ref": "5/C13",
@@ -12,6 +13,9 @@ META = {
 def run(ctx):
     import nsqdmc
     nsqdmc.model_check(ctx)
+    import pairs
+    # binding A': every interleaving (TLC, NsqdCore) of two operations' critical sections forced on the real daemon
+    pairs.run_pairs(ctx, "C13", pairs=[p for p in pairs.all_pairs() if "EMPTY" in p or "SCAN" in p], sample=None if not ctx.quick else 160)
     n = 16 if ctx.quick else 120
     corelib.run_modes(ctx, "C13", [("core", n), ("contend", n // 2)])
     ctx.cov["distinct_nontrivial"] = len(ctx.notes.get("event_kinds", {}))
